@@ -301,11 +301,19 @@ def check(pid, tier, verif_seed, n_override=None):
         print(f'[{pid}] HARNESS-ERROR wall cap {wall_cap}s exceeded',
               flush=True)
         return 2
-    det_ok = all(a.get('digest') == b.get('digest')
-                 for a, b in zip(det_a, results[:nd]))
+    def _same(a, b):
+        # a run that hit its wall-clock budget (counted as inconclusive by the
+        # engine) has no comparable trace: wall time is the one thing the
+        # simulator does not own
+        da, db = str(a.get('digest')), str(b.get('digest'))
+        if da.startswith('inconclusive') or db.startswith('inconclusive') \
+                or a.get('harness_error') or b.get('harness_error'):
+            return True
+        return da == db
+    det_ok = all(_same(a, b) for a, b in zip(det_a, results[:nd]))
     if not det_ok:
         bad = [a['index'] for a, b in zip(det_a, results[:nd])
-               if a.get('digest') != b.get('digest')]
+               if not _same(a, b)]
         print(f'[{pid}] HARNESS-ERROR determinism gate failed for runs {bad}',
               flush=True)
         return 2
